@@ -174,7 +174,7 @@ class Pair:
     """A connected, optionally authenticated client/server pair."""
 
     def __init__(self, loop, sopts=None, copts=None, env=None, connect=True,
-                 wait='auth', caddr=('127.0.0.1', 40001), saddr=('127.0.0.1', 22)):
+                 wait='auth', caddr=('127.0.0.1', 40001), saddr=('127.0.0.1', 22), cwait=None):
         self.loop = loop
         self.env = env if env is not None else {}
         env = self.env
@@ -193,7 +193,7 @@ class Pair:
         self.server_owner = None
         self.client_owner = None
         self.s = asyncssh.SSHServerConnection(loop, self.sopt, wait=wait)
-        self.c = asyncssh.SSHClientConnection(loop, self.copt, wait=wait)
+        self.c = asyncssh.SSHClientConnection(loop, self.copt, wait=cwait or wait)
         self.ct, self.st = loop.make_pair(self.c, self.s, caddr, saddr, labels=('client', 'server'))
         if connect:
             self.s.connection_made(self.st)
